@@ -67,7 +67,7 @@ type geom struct {
 	loops [][]*s2.Loop   // the same loops as S2 loops (for the point-in-loop primitive)
 }
 
-func pointGeom(p s2.Point) *geom { return &geom{kind: gPoint, p: p} }
+func pointGeom(p s2.Point) *geom   { return &geom{kind: gPoint, p: p} }
 func pathGeom(ps []s2.Point) *geom { return &geom{kind: gPath, path: ps} }
 func areaGeom(polys [][][]s2.Point) *geom {
 	g := &geom{kind: gArea, polys: polys}
@@ -101,8 +101,8 @@ type feat struct {
 	name  string
 	probe string // cell-relative scenes: the kind of probe, without its corner / edge number
 	id    b6.FeatureID
-	g    *geom
-	lls  []s2.LatLng // point / path vertices as lat/lngs
+	g     *geom
+	lls   []s2.LatLng // point / path vertices as lat/lngs
 }
 
 func (f *feat) ingest() ingest.Feature {
